@@ -17,6 +17,8 @@
 (*                      r, followed by the full-sync request / response when they do not   *)
 (*                      connect (HandleHeadUpdate, HandleStreamRequest, HandleResponse)     *)
 (*   Tamper(r,kind,..)  a mutated / misplaced / unaccepted record is handed to AddRawRecord*)
+(*   AddBatchTail(..)   AddRawRecords(log[i..j] ++ <<such a record made for the state after*)
+(*                      record j>>): the accepted records stay, the tail leaves no trace    *)
 (*                                                                                         *)
 (* Record contents are abstracted to their effect on the observable projection of AclState *)
 (* (permissions, statuses, invites, pending requests, read-key generation ids, head); the  *)
@@ -28,6 +30,9 @@
 (*                           Storage.GetAfterOrder (1-based orders) - the pre-repair code  *)
 (*   TrustScanOrder          loadRecords trusts the order scan without the PrevId check    *)
 (*   SwapBeforeApply         AddRawRecord applies the contents to the live state           *)
+(*   BatchOnSharedCopy       AddRawRecords applies the whole batch to one copy of the state *)
+(*                           and commits that copy with the records in front of a refused   *)
+(*                           one (the refused record's first contents come along)          *)
 EXTENDS Integers, Sequences, FiniteSets, TLC
 
 CONSTANTS Accounts,     \* account names besides the owner "o" (strings)
@@ -36,7 +41,7 @@ CONSTANTS Accounts,     \* account names besides the owner "o" (strings)
           GrantPerms,   \* permissions that add / accept / change / anyone-invites hand out
           MaxContents,  \* 1..2 contents per record
           Cfgs,         \* set of configurations [Replicas -> [mode, storage, ident]]
-          ServeFromIndexNotOrder, TrustScanOrder, SwapBeforeApply
+          ServeFromIndexNotOrder, TrustScanOrder, SwapBeforeApply, BatchOnSharedCopy
 
 Owner == "o"
 All   == {Owner} \cup Accounts
@@ -259,8 +264,9 @@ Validates(r)     == cfg[r].mode = "validating"
 \* one replica as a record, so that AddRawRecords can be folded
 Rep(r) == [st |-> st[r], mem |-> mem[r], stor |-> stor[r]]
 
-\* result of AclList.AddRawRecord(rec) on replica image x (of replica r)
-TryAdd(r, x, rec) ==
+\* result of AclList.AddRawRecord(rec) on replica image x (of replica r); leak: the contents are
+\* applied to a state that is kept even when the record is refused (deviations only)
+TryAddL(r, x, rec, leak) ==
     IF \E i \in 1..Len(x.mem) : x.mem[i] = rec.id THEN [res |-> "exists", x |-> x]
     ELSE IF NeedsAcceptor(r) /\ ~rec.accOk THEN [res |-> "acceptor", x |-> x]
     ELSE IF ~rec.sigOk THEN [res |-> "signature", x |-> x]
@@ -269,19 +275,23 @@ TryAdd(r, x, rec) ==
     ELSE LET ap == ApplyRec(x.st, rec)   \* partial mode skips the guards; they are vacuous there because the
                                          \* acceptor signs valid records only (AcceptedWasValid) and unsigned ones stop above
          IN IF ~ap.ok
-              THEN [res |-> "content", x |-> IF SwapBeforeApply THEN [x EXCEPT !.st = ap.s] ELSE x]
+              THEN [res |-> "content", x |-> IF leak THEN [x EXCEPT !.st = ap.s] ELSE x]
               ELSE [res |-> "ok",
                     x |-> [st   |-> ap.s,
                            mem  |-> Append(x.mem, rec.id),
                            stor |-> [recs |-> Append(x.stor.recs, SRec(rec, Len(x.mem) + 1)), head |-> rec.id]]]
+TryAdd(r, x, rec) == TryAddL(r, x, rec, SwapBeforeApply)
 
-\* AclList.AddRawRecords: known records are skipped, the first other error stops the loop
-\* (res: "ok" or the class of that error)
-RECURSIVE AddManyRes(_, _, _, _)
-AddManyRes(r, x, recs, k) ==
+\* AclList.AddRawRecords: one AddRawRecord per record; known records are skipped, the first other
+\* error stops the loop and the records added before it stay (res: "ok" or the class of that error).
+\* added: some record of this call has been added (only the BatchOnSharedCopy deviation cares).
+RECURSIVE AddManyResA(_, _, _, _, _)
+AddManyResA(r, x, recs, k, added) ==
     IF k > Len(recs) THEN [x |-> x, res |-> "ok"]
-    ELSE LET t == TryAdd(r, x, recs[k])
-         IN IF t.res \in {"ok", "exists"} THEN AddManyRes(r, t.x, recs, k + 1) ELSE [x |-> t.x, res |-> t.res]
+    ELSE LET t == TryAddL(r, x, recs[k], SwapBeforeApply \/ (BatchOnSharedCopy /\ added))
+         IN IF t.res \in {"ok", "exists"} THEN AddManyResA(r, t.x, recs, k + 1, added \/ t.res = "ok")
+            ELSE [x |-> t.x, res |-> t.res]
+AddManyRes(r, x, recs, k) == AddManyResA(r, x, recs, k, FALSE)
 AddMany(r, x, recs, k) == AddManyRes(r, x, recs, k).x
 
 Install(r, x) ==
@@ -377,8 +387,9 @@ Announce(p, r, i, start) ==
 \* ---- records that must be refused; every one of these steps leaves the replica unchanged ----
 TamperKinds == {"byte", "id", "prevId", "authorSig", "acceptorSig", "nonHeadPrev", "gap", "dup", "unaccepted"}
 
-Tampered(r, kind, other, a, cs) ==
-    LET nxt == IF applied[r] < Len(log) THEN log[applied[r] + 1] ELSE RootRec
+\* the refusable record for a list that holds log[1..at] and is in state s
+TamperedAt(at, s, kind, other, a, cs) ==
+    LET nxt == IF at < Len(log) THEN log[at + 1] ELSE RootRec
     IN CASE kind = "byte"        -> [nxt EXCEPT !.cidOk = FALSE]            \* payload byte changed, id kept
          [] kind = "id"          -> [nxt EXCEPT !.id = 0, !.cidOk = FALSE]  \* another id on the same bytes
          [] kind = "prevId"      -> [nxt EXCEPT !.id = 0, !.prev = other, !.sigOk = FALSE, !.accOk = FALSE] \* PrevId rewritten, both signatures stale, id recomputed
@@ -387,21 +398,39 @@ Tampered(r, kind, other, a, cs) ==
          [] kind = "nonHeadPrev" -> [nxt EXCEPT !.id = 0, !.prev = other]   \* re-signed by author and acceptor on an older record
          [] kind = "gap"         -> log[other]                               \* an accepted record that is not the next one
          [] kind = "dup"         -> log[other]                               \* an accepted record the replica already has
-         [] kind = "unaccepted"  -> [Rec(0, st[r].head, a, cs) EXCEPT !.accOk = FALSE]
+         [] kind = "unaccepted"  -> [Rec(0, s.head, a, cs) EXCEPT !.accOk = FALSE]
+Tampered(r, kind, other, a, cs) == TamperedAt(applied[r], st[r], kind, other, a, cs)
 
-TamperEnabled(r, kind, other, a, cs) ==
-    CASE kind \in {"byte", "id", "authorSig"} -> applied[r] < Len(log) /\ other = 0 /\ a = Owner /\ cs = <<>>
-      [] kind = "acceptorSig" -> applied[r] < Len(log) /\ NeedsAcceptor(r) /\ other = 0 /\ a = Owner /\ cs = <<>>
-      [] kind \in {"prevId", "nonHeadPrev"} -> applied[r] < Len(log) /\ other \in 0..(applied[r] - 1) /\ a = Owner /\ cs = <<>>
-      [] kind = "gap" -> other \in (applied[r] + 2)..Len(log) /\ a = Owner /\ cs = <<>>
-      [] kind = "dup" -> other \in 1..applied[r] /\ a = Owner /\ cs = <<>>
-      [] kind = "unaccepted" -> other = 0 /\ applied[r] = Len(log)   \* cs \in BadCs(st[r], a): supplied by Next
+TamperEnabledAt(r, at, kind, other, a, cs) ==
+    CASE kind \in {"byte", "id", "authorSig"} -> at < Len(log) /\ other = 0 /\ a = Owner /\ cs = <<>>
+      [] kind = "acceptorSig" -> at < Len(log) /\ NeedsAcceptor(r) /\ other = 0 /\ a = Owner /\ cs = <<>>
+      [] kind \in {"prevId", "nonHeadPrev"} -> at < Len(log) /\ other \in 0..(at - 1) /\ a = Owner /\ cs = <<>>
+      [] kind = "gap" -> other \in (at + 2)..Len(log) /\ a = Owner /\ cs = <<>>
+      [] kind = "dup" -> other \in 1..at /\ a = Owner /\ cs = <<>>
+      [] kind = "unaccepted" -> other = 0      \* cs \in BadCs(state at the prefix, a): supplied by Next
+TamperEnabled(r, kind, other, a, cs) == TamperEnabledAt(r, applied[r], kind, other, a, cs)
 
 Tamper(r, kind, other, a, cs) ==
     /\ TamperEnabled(r, kind, other, a, cs)
     /\ LET t == TryAdd(r, Rep(r), Tampered(r, kind, other, a, cs))
        IN /\ Install(r, t.x)            \* whatever AddRawRecord left behind
           /\ okRej' = (t.res # "ok" /\ t.x = Rep(r))
+    /\ UNCHANGED <<log, lst, cfg, okCatch, okMig>>
+
+\* AddRawRecords (called directly, by HandleHeadUpdate for an announced batch, by HandleResponse
+\* for a full-sync answer) with accepted records log[i..j], at least one of them new, FOLLOWED by a
+\* refusable record made for the state after record j - in particular a correctly signed record on
+\* the right head whose first content applies and whose second does not. The accepted records
+\* stay, the refused tail must leave nothing behind.
+TailKinds == TamperKinds \ {"dup"}      \* a known record inside a batch is skipped, not refused
+AddBatchTail(r, i, j, kind, other, a, cs) ==
+    /\ i \in 1..(applied[r] + 1) /\ j \in (applied[r] + 1)..Len(log) /\ kind \in TailKinds
+    /\ TamperEnabledAt(r, j, kind, other, a, cs)
+    /\ LET good == SubSeq(log, i, j)
+           tail == TamperedAt(j, F(SubSeq(log, 1, j)), kind, other, a, cs)
+           t == AddManyRes(r, Rep(r), Append(good, tail), 1)
+       IN /\ Install(r, t.x)
+          /\ okRej' = (t.res # "ok" /\ t.x = AddMany(r, Rep(r), good, 1))
     /\ UNCHANGED <<log, lst, cfg, okCatch, okMig>>
 
 Next ==
@@ -415,6 +444,11 @@ Next ==
     \/ \E r \in Replicas, p \in Replicas : \E i \in 1..MaxLog, start \in 0..MaxLog : Announce(p, r, i, start)
     \/ \E r \in Replicas, kind \in TamperKinds \ {"unaccepted"} : \E other \in 0..MaxLog : Tamper(r, kind, other, Owner, <<>>)
     \/ \E r \in Replicas, a \in All : \E cs \in BadCs(st[r], a) : Tamper(r, "unaccepted", 0, a, cs)
+    \/ \E r \in Replicas, kind \in TailKinds \ {"unaccepted"} : \E i \in 1..MaxLog, j \in 1..MaxLog, other \in 0..MaxLog :
+          AddBatchTail(r, i, j, kind, other, Owner, <<>>)
+    \/ \E r \in Replicas, a \in All : \E i \in 1..MaxLog, j \in 2..MaxLog :
+          /\ j \in (applied[r] + 1)..Len(log)
+          /\ \E cs \in BadCs(F(SubSeq(log, 1, j)), a) : AddBatchTail(r, i, j, "unaccepted", 0, a, cs)
 
 Spec == Init /\ [][Next]_vars
 
